@@ -420,6 +420,46 @@ func (MonC15) State(x *Exec) *Violation {
 			return v
 		}
 	}
+	// read-only calls between obtaining a sequence and consuming it, and from inside the loop over it,
+	// do not affect what the sequence yields
+	for i, q := range qs {
+		if i%3 != 0 && q.Kind != SeqRange && q.Kind != SeqPrefix {
+			continue
+		}
+		base, pan := collectSafe(d, q)
+		if pan != "" {
+			continue
+		}
+		var late, inner []Pair
+		p1 := safely(func() {
+			s := d.Seq(q)
+			WarmQueries(u, d)
+			late = Collect(s)
+		})
+		p2 := safely(func() {
+			n := 0
+			d.Seq(q)(func(pr Pair) bool {
+				inner = append(inner, pr)
+				if len(u.Probes) > 0 {
+					d.Search(u.Probes[n%len(u.Probes)])
+					n++
+				}
+				d.Min()
+				return true
+			})
+		})
+		x.Stats.Evaluations += 2
+		same := func(a []Pair) bool { return (len(a) == 0 && len(base) == 0) || PairsEqual(a, base) }
+		if p1 != "" || !same(late) {
+			return viol(fmt.Sprintf("%s consumed after other read-only calls were made on the unchanged tree, content %s", u.QueryString(q), x.Ref), PairsString(u, base), PairsString(u, late)+p1)
+		}
+		if p2 != "" || !same(inner) {
+			return viol(fmt.Sprintf("%s with Search/Minimum called from inside the loop, content %s", u.QueryString(q), x.Ref), PairsString(u, base), PairsString(u, inner)+p2)
+		}
+	}
+	if v := check("sequences consumed with other read-only calls interleaved"); v != nil {
+		return v
+	}
 	if ap, ok := d.(interface{ AliasProbe() }); ok && u.KeyType == "[]byte" {
 		if p := safely(ap.AliasProbe); p == "" {
 			if v := check("Search/Prefix/Range whose arguments are sub-slices of keys the tree returned (partial-path arguments)"); v != nil {
